@@ -87,6 +87,9 @@ def execute(c):
     from hdc.algo.utils import get_calibration_indices
 
     times = c["time"]
+    if c.get("prime"):
+        execute(dict(c["prime"], clock=c.get("clock", 0)))          # history of the process: an earlier call on a near-identical axis (result not judged here)
+        c["primed"] = True
     if c["op"] == "calidx":
         tix = pd.DatetimeIndex([stamp(t) for t in times])
         if c["groups"]:
@@ -214,6 +217,15 @@ def gen_cases(tier, seed):
             add({"op": "spi", "time": times, "b": b, "e": e, "groups": gr, "seed": rng.randrange(10**6), "strdate": False, "dask": False})
             if b != -1:
                 add({"op": "calidx", "time": times, "b": b, "e": e, "groups": gr, "ng": ng})
+    # same-process history on LONG axes (more than 1000 steps: numpy abbreviates the text of such arrays): a first call on a complete
+    # record, then the same record with an interior stretch missing - same first and last steps, same labels at both ends, same
+    # window; the second call's index pairs belong to ITS axis
+    for T, ng, cut in ((1100, 36, (400, 436)), (1300, 12, (500, 530))) if quick else ((1100, 36, (400, 436)), (1300, 12, (500, 530)), (2100, 36, (900, 972))):
+        full = [10 + 2 * i for i in range(T)]
+        keep = [i for i in range(T) if not (cut[0] <= i < cut[1])]
+        b, e = full[cut[0] - 40], full[T - 100]
+        prime = {"op": "calidx", "time": full, "b": b, "e": e, "groups": [i % ng for i in range(T)], "ng": ng}
+        add({"op": "calidx", "time": [full[i] for i in keep], "b": b, "e": e, "groups": [i % ng for i in keep], "ng": ng, "prime": prime})
     # sub-daily axes with bounds given as date-only strings (coarser than the axis)
     for _ in range(25 if quick else 250):
         T = rng.choice([6, 10, 16, 24])
@@ -275,7 +287,7 @@ def run(tier, seed):
 def replay(path):
     v = json.loads(open(path).read())
     t = v["trace"]
-    c = execute({k: t[k] for k in ("op", "time", "b", "e", "groups", "ng", "seed", "strdate", "dask", "clock", "coarse", "rawtime", "bsrc", "esrc") if k in t})
+    c = execute({k: t[k] for k in ("op", "time", "b", "e", "groups", "ng", "seed", "strdate", "dask", "clock", "coarse", "rawtime", "bsrc", "esrc", "prime") if k in t})
     c["tid"] = 1
     verdicts, _ = core.validate_batch(MODULE, [c], jobs=1)
     print("replayed", describe(c), "->", verdicts[1])
